@@ -105,7 +105,8 @@ def start_block(kind, origin, world, rng):
         return b, [], []
     if origin == "ctor":          # only platform calibration takes items in its constructor
         from basictdf.tdfForcePlatformsCalibration import ForcePlatformsCalibrationDataBlock
-        b = ForcePlatformsCalibrationDataBlock(platforms=[o for o, _ in items])
+        world.given = [o for o, _ in items]               # the caller's own list: he may go on using it
+        b = ForcePlatformsCalibrationDataBlock(platforms=world.given)
         return b, None, [m for _, m in items]             # channels: whatever the constructor assigns (checked by the oracle)
     for (o, m), c in zip(items, chans):
         if kind == "EM":
@@ -161,11 +162,21 @@ def gen_call(kind, world, rng, cur_map, cur_items):
         n = len(cur_items)
         if q < 0.35:
             return ("remove_index", rng.randrange(-n - 2, n + 3))
-        if q < 0.6:
+        if q < 0.5:
             if cur_items and rng.random() < 0.7:
                 return ("remove_item", rng.choice(cur_items))
             o, m = world.item("nobody", 9)
             return ("remove_item", o)
+        if q < 0.6:                                    # remove_platforms: a list of platform objects and indices
+            keys = []
+            for _ in range(rng.randrange(0, 4)):
+                if cur_items and rng.random() < 0.5:
+                    keys.append(rng.choice(cur_items))
+                elif rng.random() < 0.8:
+                    keys.append(rng.randrange(-n - 1, n + 2))
+                else:
+                    keys.append(world.item("nobody", 9)[0])
+            return ("remove_many", keys)
         k = rng.randrange(0, 3)
         objs = [world.item(rng.choice(["a", "b"]), rng.randrange(3)) for _ in range(k)]
         if objs and rng.random() < 0.25:
@@ -204,6 +215,9 @@ def perform(kind, b, call):
         elif name == "remove_item":
             mcalls = [[4, WORLD.model_of(call[1])]]
             b.remove_platform(call[1])
+        elif name == "remove_many":
+            mcalls = [[7, [[0, k] if isinstance(k, int) else [1, WORLD.model_of(k)] for k in call[1]]]]
+            b.remove_platforms(list(call[1]))
         elif name == "add_many":
             objs, chs = call[1], call[2]
             pairs = [[m, [c]] for (o, m), c in zip(objs, chs)] if chs else [[m, []] for o, m in objs]
@@ -230,6 +244,8 @@ def label_of(call):
         return "%s(%s%s)" % (n, "item" if call[2][0] == 0 else "non-item", "" if call[3] is None else ", channel=%d" % call[3])
     if n == "remove_item":
         return "remove_item"
+    if n == "remove_many":
+        return "remove_many(%r)" % (["item" if not isinstance(k, int) else k for k in call[1]],)
     if n in ("add_many", "assign_pairs"):
         return "%s(%d items, channels=%r)" % (n, len(call[1]), call[2])
     if n == "assign_items":
@@ -293,6 +309,33 @@ def one_sequence(chk, rng, kind, origin, length, idx, script=None):
             given.setdefault(id(it), c)
         mcalls_all += mcs
         obs.append((exc, cmap2, [world.model_of(x) for x in citems2]))
+    if origin == "ctor" and getattr(world, "given", None) is not None:
+        # the caller goes on using the list he passed to the constructor: appends to it, pops from it, and builds a second
+        # block from it which he then edits — none of that may show in the first block
+        from basictdf.tdfForcePlatformsCalibration import ForcePlatformsCalibrationDataBlock
+        snap = (list(state_of(kind, b)[0]), [id(x) for x in state_of(kind, b)[1]])
+        raw0 = encode_map(kind, b)
+        given = world.given
+        given.append(world.item("later", 1)[0])
+        if given[:-1]:
+            given.pop(0)
+        try:
+            b2 = ForcePlatformsCalibrationDataBlock(platforms=given)
+            b2.add_platform(world.item("second", 2)[0])
+            if len(b2._platforms) > 1:
+                b2.remove_platform(0)
+        except Exception:
+            pass
+        now = (list(state_of(kind, b)[0]), [id(x) for x in state_of(kind, b)[1]])
+        found = None
+        if now != snap:
+            found = "the block changed when the caller went on using the list he had passed to the constructor (channels %r -> %r, %d -> %d items)" % (
+                snap[0], now[0], len(snap[1]), len(now[1]))
+        else:
+            found = aligned_violation(kind, b, world, None, None)
+        if found:
+            chk.violation("C15 %s (%s): %s [calls %r]" % (kind, origin, found, what["calls"]), dict(what, then="caller edits the constructor's list and builds a second block from it"), True)
+            return
     return (kind, m0, i0, mcalls_all, obs, what)
 
 
@@ -331,8 +374,8 @@ def run(chk):
               ("PC", "decoded"), ("PD", "new"), ("PD", "filled"), ("PD", "decoded")]
     chk.rule = ("edit sequences of 1-6 calls on EMG, platform-calibration and platform-data blocks starting empty, "
                 "constructor-filled, filled through the API, or decoded from bytes: add with automatic / explicit channel (free, "
-                "taken, at and beyond both ends of the 16-bit channel field), add of a non-item, remove by label / index (-n-2..n+2) / item (present, absent), add_platforms with and "
-                "without channels, the two `platforms = ...` setters; after EVERY call: both lists, the (channel, item) view, the "
+                "taken, at and beyond both ends of the 16-bit channel field), add of a non-item, remove by label / index (-n-2..n+2) / item (present, absent), remove_platforms with lists of items and indices, add_platforms with and "
+                "without channels, the two `platforms = ...` setters, and for constructor-filled blocks the caller going on to use the list he passed; after EVERY call: both lists, the (channel, item) view, the "
                 "channel map parsed from the encoded bytes, nBytes, and the decode of the encoding; non-trivial = >= 2 calls")
     # scripted: both ends of the 16-bit channel field, explicit and automatic
     def ex(c):
